@@ -7,8 +7,9 @@ transition graph edge by edge.  G: every edge is replayed into the real code fro
 path to its source state; the answer must equal the one the specification computed (= the
 declarative truth, i.e. what a fresh object answers); the projection of the private caches is
 compared with the model state and reported as DRIFT only.  A second part (spec/Api.tla) lets TLC
-generate long histories over the wider read-only API, replayed on corpus files against a
-freshly opened object per query."""
+generate long histories over the wider read-only API, replayed on corpus files and on a sample of the
+images the other properties' writers generate (vf/c10_writers.py) against a freshly opened object
+per query."""
 import io
 import json
 import os
@@ -226,7 +227,8 @@ def _replay_graph(run, cfg, res):
 def check(run):
     run.rule = ('cases = labelled edges (source cache state, call, stream repositioning) of the Reader state graph explored '
                 'exhaustively by TLC up to the depth bound on three constant files, each replayed from a shortest path on a fresh '
-                'object; plus TLC-simulated long histories over the wider API on corpus files; non-trivial = the edge is taken from a '
+                'object; plus TLC-simulated long histories and systematic patterns over the wider API on corpus files and on a sample of the images '
+                'the other properties\' writers generate; non-trivial = the edge is taken from a '
                 'non-initial cache state; distinct by (file, source state, call, repositioning)')
     run.assumptions += ['hidden implementation state = projected caches + generator frames + stream positions (pruning hypothesis); '
                         'positions are attacked before every call, projections are monitored and reported as DRIFT',
@@ -234,6 +236,9 @@ def check(run):
     cfgs = ['Reader_f1_quick', 'Reader_f2_quick', 'Reader_f3_quick'] if run.tier == 'quick' else \
         ['Reader_f1_thorough', 'Reader_f2_thorough', 'Reader_f3_thorough']
     tot_e = tot_s = 0
+    # the files of the Api part that the other properties' writers generate: their TLC runs go on in the background meanwhile
+    from . import c10_writers
+    generation = c10_writers.Generation(run, slots=max(2, core.NPROC - 3)).start()
     from concurrent.futures import ThreadPoolExecutor
     # the three TLC runs are independent: run them side by side, replay as each finishes
     with ThreadPoolExecutor(max_workers=3) as ex:
@@ -253,7 +258,7 @@ def check(run):
     c10_memo.memo_histories(run)
     run.notes.append('memo part in %.1fs' % (_t.time() - _t0))
     _t0 = _t.time()
-    c10_api.histories(run)
+    c10_api.histories(run, generation)
     run.notes.append('api part in %.1fs' % (_t.time() - _t0))
     if not run.samples:
         run.samples.append({'note': 'no sample'})
